@@ -23,6 +23,24 @@ RULE = ("fault_enumeration: for each sampled (prior state, operation) the index 
 NOMEM = b"org.freedesktop.DBus.Error.NoMemory"
 NAMES = [b"com.example.A", b"com.example.B"]
 
+# a configuration whose per-group, per-user and default sections all carry rules: the connection's policy is
+# assembled from them while Hello is dispatched, so a Hello that succeeds must be bound by every section
+GROUP_POLICY = busproc.OPEN_POLICY + """
+  <policy group="root">
+    <deny send_interface="com.example.GroupSecret"/>
+  </policy>
+  <policy group="daemon">
+    <deny send_interface="com.example.Open"/>
+  </policy>
+  <policy user="root">
+    <deny send_interface="com.example.UserSecret"/>
+  </policy>
+  <policy user="daemon">
+    <deny send_interface="com.example.Open"/>
+  </policy>
+"""
+PROBE_IFACES = [b"com.example.GroupSecret", b"com.example.UserSecret", b"com.example.Open"]
+
 
 def parse_trace(text):
     """last complete state block -> canonical tuple of lines (sorted)"""
@@ -49,7 +67,8 @@ class World(object):
         self.ctl = os.path.join(self.rundir, "ctl")
         self.trace = os.path.join(self.rundir, "trace")
         self.clock = client.Clock()
-        self.daemon = busproc.Daemon(b, self.rundir, busproc.make_config("@SOCK@"), name="bus",
+        self.policy = any(st[0] == "policy" for st in setup)
+        self.daemon = busproc.Daemon(b, self.rundir, busproc.make_config("@SOCK@", GROUP_POLICY if self.policy else None), name="bus",
                                      env={"DBUS_VERIF_CTL": self.ctl, "DBUS_VERIF_TRACE": self.trace})
         if not self.daemon.started():
             raise RuntimeError("daemon did not start: " + self.daemon.stderr_text()[-400:])
@@ -193,13 +212,25 @@ def do_op(w, op, k, nfail=1, second=-1):
         # registered connections share a name)
         res_first = w.result()
         first_name = replies[0].msg.body[0] if replies and replies[0].msg.type == 2 and replies[0].msg.body else None
+        if w.policy and first_name is not None and w.clients:
+            # the newcomer's Hello succeeded: its policy must be complete (per-group and per-user sections included)
+            verdicts = []
+            for iface in PROBE_IFACES:
+                try:
+                    ps = c.call_async(w.clients[0].unique, b"/o", iface, b"Probe", b"", [], flags=1)
+                    c.barrier()
+                    got = [r for r in c.take_inbox() if r.msg.type == 3 and r.msg.known().get(5) == ps]
+                    verdicts.append((iface, got[0].msg.known().get(4) if got else b"delivered"))
+                except (client.Closed, client.Timeout):
+                    verdicts.append((iface, b"connection-lost"))
+            seen["policy-probes"] = verdicts
         try:
             c2 = client.Client(w.daemon.sock, w.clock)
             c2.auth()
             r2 = c2.hello()
             second_name = r2.msg.body[0] if r2.msg.type == 2 and r2.msg.body else None
             c2.close()
-        except (client.Closed, client.Timeout):
+        except (client.Closed, client.Timeout, OSError):
             second_name = None
         known = set(o.unique for o in w.clients)
         if second_name is not None and (second_name == first_name or second_name in known):
@@ -262,6 +293,10 @@ def gen_case(rng):
     if rng.random() < 0.3:
         setup.append(("call", rng.randrange(ncl), b":1.%d" % rng.randrange(ncl)))
     kind = rng.choice(["hello", "request", "request", "request", "release", "addmatch", "removematch", "call", "usignal", "broadcast"])
+    if rng.random() < (1.0 if os.environ.get("VERIF_C14_FORCE_POLICY") else 0.12):
+        # Hello on a bus whose policy has per-group and per-user sections
+        setup.insert(0, ("policy",))
+        kind = "hello"
     ci = rng.randrange(ncl)
     if kind == "hello":
         op = ("hello",)
@@ -270,7 +305,8 @@ def gen_case(rng):
     elif kind == "release":
         op = ("release", ci, rng.choice(NAMES))
     elif kind == "addmatch":
-        op = ("addmatch", ci, rng.choice([b"type='signal',member='X'", b"arg0path='/a/'", b"interface='a.b',arg3='z'", b"bogus"]))
+        op = ("addmatch", ci, rng.choice([b"type='signal',member='X'", b"arg0path='/a/'", b"interface='a.b',arg3='z'", b"bogus",
+                                          b"arg0=\\", b"type='signal',arg1='C:\\dir'\\", b"arg2=C:\\"]))
     elif kind == "removematch":
         if rules and rng.random() < 0.8:
             ci, text = rng.choice(rules)
@@ -305,6 +341,8 @@ def op_class(setup, op, pre):
         cls += ":" + row
     elif op[0] in ("call", "usignal"):
         cls += ":" + ("unique" if op[2][:1] == b":" else ("nobody" if op[2].endswith(b"Nobody") else "name"))
+    if any(st[0] == "policy" for st in setup):
+        cls += ":group-policy"
     return cls + (":eavesdropped" if eav else "")
 
 
@@ -400,7 +438,7 @@ def run_case(b, rundir, rng, part, cid, max_k=None, pair_limit=0):
                 dirty = dirty or (post_k != pre)
                 continue
             state_same = (post_k == pre) or (op[0] == "hello" and _same_but_incomplete(post_k, pre))
-            others_quiet = all(not v for kk, v in seen.items())
+            others_quiet = all(not v for kk, v in seen.items())   # (no policy probes are sent after a failed Hello)
             one_nomem = (rc == (("error", NOMEM),))
             if state_same and others_quiet and one_nomem:
                 part.count("world:failed-cleanly")
